@@ -355,7 +355,8 @@ STAGE_NAMES = [
 ]
 
 API_CALLS = ["get_definitions", "forcefield", "create_handler", "mol2", "psize", "read_pqr",
-             "debump_api", "parser"]
+             "debump_api", "parser", "get_molecule", "forcefield_userff", "setup_ligand",
+             "parser_reuse_defaults", "inputgen"]
 
 
 CLOCKS = [
@@ -488,6 +489,43 @@ def _api(call, arg, scratch):
         deb.get_bump_score(bio.residues[arg % len(bio.residues)])
     elif call == "parser":
         main_mod.build_main_parser().parse_args(["--ff=AMBER", "a.pdb", "b.pqr"])
+    elif call == "parser_reuse_defaults":
+        # parse with list-valued / tuple-valued PROPKA options and then mutate the result,
+        # the way a caller post-processing a Namespace might
+        ns = main_mod.build_main_parser().parse_args(
+            ["--ff=PARSE", "--titrate_only=A:1,A:2", "-w", "1", "12", "0.5", "a.pdb", "b.pqr"])
+        for v in vars(ns).values():
+            if isinstance(v, list):
+                v.append("x")
+    elif call == "get_molecule":
+        path = os.path.join(scratch, "api-mol.pdb")
+        with open(path, "w") as fh:
+            fh.write(corpus.load(["cterm_hid.pdb", "1AJJ.pdb", "5vav_cyclic_peptide.pdb"][arg % 3]))
+        pdblist, _ = pio.get_molecule(path)
+        for rec in pdblist[:50]:
+            if hasattr(rec, "chain_id"):
+                rec.chain_id = "Z"  # a caller editing the records it was handed
+    elif call == "forcefield_userff":
+        d = pio.get_definitions()
+        forcefield.Forcefield(None, d, os.path.join(corpus.CORPUS_DIR, "custom-ff.dat"),
+                              os.path.join(corpus.CORPUS_DIR, "custom.names"))
+    elif call == "setup_ligand":
+        d = pio.get_definitions()
+        text = corpus.structure_text({"item": "cterm_hid.pdb", "lig_het": "ethanol.mol2"})
+        path = os.path.join(scratch, "api-lig.pdb")
+        with open(path, "w") as fh:
+            fh.write(text)
+        pdblist, _ = pio.get_molecule(path)
+        bio, d, lig = main_mod.setup_molecule(
+            pdblist, d, os.path.join(corpus.CORPUS_DIR, "ethanol.mol2"))
+        lig.assign_parameters()
+    elif call == "inputgen":
+        from pdb2pqr import inputgen
+        path = os.path.join(corpus.CORPUS_DIR, "cterm_hid_out.pqr")
+        p = psize.Psize()
+        p.parse_input(path)
+        p.run_psize(path)
+        inputgen.Input(path, p, "mg-auto", 0, potdx=True)
 
 
 @world.job_kind("c11.history")
@@ -551,6 +589,65 @@ def job_history(job, scratch):
     return {"obs": obs}
 
 
+def _child_spans(note_fd, cfg, scdir):
+    from checks import c12
+    from sim import monitor
+
+    # a run under the step counter only to learn where each stage starts and ends
+    o = c12.execute_run({"cfg": cfg, "entry": "run_pdb2pqr", "profile": True}, scdir, 0, note_fd)
+    return {"outcome": o["outcome"], "spans": o["profile"]["stage_spans"],
+            "n_start": o["n_start"]}
+
+
+@world.job_kind("c11.abort_sweep")
+def job_abort_sweep(job, scratch):
+    """For one cfg A: abort a run of A in the *middle* of every stage (where a temporary
+    override made at the start of the stage has not been undone yet), each time followed
+    by a normal run of a cfg B, all in one interpreter.  The B runs are compared with the
+    fresh-world references by the driver."""
+    from checks import c12
+    from sim import forkrun
+
+    A = job["cfg"]
+    others = job["others"]
+    pdir = os.path.join(scratch, "spans")
+    os.makedirs(pdir, exist_ok=True)
+    cr = forkrun.forked(_child_spans, A, pdir, timeout=300)
+    fin = cr.final()
+    if fin is None:
+        raise RuntimeError(f"span profile died: {cr.error()}")
+    obs = []
+    ops = []
+    spans = [sp for sp in fin["spans"] if sp[2] - sp[1] >= 3]
+    # one instant in the middle of each stage, and one near its end
+    instants = []
+    for name, a, b in spans:
+        instants.append((name, (a + b) // 2))
+        if b - a > 40:
+            instants.append((name, b - 2))
+    for k, (name, at) in enumerate(instants[: job.get("max_aborts", 60)]):
+        exc = ("MemoryError", "KeyboardInterrupt", "RecursionError", "ValueError")[k % 4]
+        f = {"k": "exc", "event": "PY_START", "at": at, "exc": exc}
+        scdir = os.path.join(scratch, f"a{k}")
+        os.makedirs(scdir, exist_ok=True)
+        o = c12.execute_run({"cfg": A, "entry": "run_pdb2pqr", "faults": [f]}, scdir, 0, None,
+                            use_monitor=False)
+        ops.append({"op": "run", "cfg": A, "faults": [f], "stage": name})
+        obs.append({"op": "run", "outcome": o["outcome"], "exc": o["exc"], "sha": None,
+                    "fired": len(o["fired"]), "fired_kinds": ["exc"] if o["fired"] else []})
+        c12.world_cleanup(scdir)
+        B = others[k % len(others)]
+        scdir = os.path.join(scratch, f"b{k}")
+        os.makedirs(scdir, exist_ok=True)
+        o = c12.execute_run({"cfg": B, "entry": "run_pdb2pqr"}, scdir, 0, None, use_monitor=False)
+        data = runner.read_bytes(o["paths"]["output"])
+        ops.append({"op": "run", "cfg": B})
+        obs.append({"op": "run", "outcome": o["outcome"], "exc": o["exc"], "sha": runner.sha(data),
+                    "len": len(data) if data is not None else None, "fired": 0, "fired_kinds": []})
+        c12.world_cleanup(scdir)
+    return {"obs": obs, "ops": ops, "stages": len(spans)}
+
+
 @world.job_kind("c11.cover")
 def job_cover(job, scratch):
     """Which repository lines does a cfg execute?  (Each line event is disabled after its
@@ -587,6 +684,12 @@ def job_cover(job, scratch):
 @world.job_kind("c11.ref")
 def job_ref(job, scratch):
     from checks import c12
+
+    # heap perturbation before the run: object addresses (hence the iteration order of
+    # sets / dicts keyed by identity-hashed objects) differ between reference variants
+    junk = [[object() for _ in range(997)] for _ in range(int(job.get("junk", 0)) // 997)]
+    if job.get("junk_free"):
+        del junk[::2]
 
     o = c12.execute_run({"cfg": job["cfg"], "entry": "run_pdb2pqr"}, scratch, 0, None,
                         use_monitor=False)
@@ -771,8 +874,29 @@ def main(tier, seed):
         sub = [pool[i] for i in ch]
         order = list(range(len(ch)))
         ops = [{"op": "run", "cfg_index": j, "entry": "run_pdb2pqr"} for j in order + order[::-1]]
+        if ti % 2 == 0:
+            # every other tour starts with all the other public API calls ("a library user
+            # who loads definitions, parses a ligand, builds a parser ... before running")
+            calls = list(API_CALLS)
+            r4.shuffle(calls)
+            ops = [{"op": "api", "call": c, "arg": r4.randrange(6)} for c in calls] + ops
         hists.append({"id": f"ht{ti}", "kind": "c11.history", "seed": seed * 1_000_003 + 9000 + ti,
                       "ops": ops, "pool": sub})
+    # abort sweeps: cfgs chosen for coverage (they exercise the most distinct code) are
+    # aborted in the middle of every stage, each abort followed by a normal run
+    sweep_bases = [cands[i] for i in picked[: (6 if quick else 40)]]
+    pool_keys = {corpus.cfg_key(c): i for i, c in enumerate(pool)}
+    n_sweeps = 0
+    for si, A in enumerate(sweep_bases):
+        if corpus.cfg_key(A) not in pool_keys:
+            continue
+        fam = next((f for f in families if pool_keys[corpus.cfg_key(A)] in f), [])
+        others = [A] + [pool[i] for i in fam if pool[i] is not A][:1] + [
+            pool[matrix_idx[(si * 7) % len(matrix_idx)]]] if matrix_idx else [A]
+        hists.append({"id": f"ha{si}", "kind": "c11.abort_sweep", "seed": seed * 1_000_003 + 5000 + si,
+                      "cfg": A, "others": others, "max_aborts": 40 if quick else 80,
+                      "ops": [None] * 80, "pool": []})
+        n_sweeps += 1
     # long jobs first
     hists.sort(key=lambda h: (-len(h["ops"]), h["id"]))
     hs_values = [0, 4242] if quick else [0, 4242, 1, 99991, 2**31 - 5, 31337]
@@ -784,14 +908,16 @@ def main(tier, seed):
         ref_cfgs[corpus.cfg_key(c)] = c
     ref_ids = {k: f"r{i}" for i, k in enumerate(sorted(ref_cfgs))}
 
-    def ref_jobs():
+    def ref_jobs(si=0):
+        junk = [0, 60_000, 400_000, 7_000, 1_500_000, 150_000, 30_000][si % 7]
         for k in sorted(ref_cfgs):
-            yield {"id": ref_ids[k], "kind": "c11.ref", "cfg": ref_cfgs[k]}
+            yield {"id": ref_ids[k], "kind": "c11.ref", "cfg": ref_cfgs[k], "junk": junk,
+                   "junk_free": bool(si % 2)}
 
     jobs_by_server = {}
     hist_servers = [s[0] for s in servers[:2]] if quick else [s[0] for s in servers[:-1]]
     for si, (name, _, _) in enumerate(servers):
-        seq = list(ref_jobs())
+        seq = list(ref_jobs(si))
         if name in hist_servers:
             # twin execution: every history runs under two different hash seeds
             k = hist_servers.index(name)
@@ -861,6 +987,7 @@ def main(tier, seed):
                  "failing_runs": 0, "api_ops": 0, "perturb_ops": 0, "revisit_after_other": 0,
                  "revisit_after_failed_or_aborted": 0, "aba": 0, "reuse_namespace_runs": 0,
                  "in_place_runs": 0, "ambient_varied_runs": 0, "ambient_axes": {},
+                 "abort_sweep_aborts": 0,
                  "faults_fired": {}}
         sigs = set()
         pairs = set()
@@ -872,6 +999,10 @@ def main(tier, seed):
                 if not jid.startswith("h") or "result" not in m:
                     continue
                 h = hist_by_id[jid]
+                if jid.startswith("ha"):
+                    h = dict(h, ops=m["result"]["ops"])
+                    stats["abort_sweep_aborts"] += sum(
+                        1 for o in m["result"]["obs"] if o.get("fired"))
                 obs = m["result"]["obs"]
                 stats["histories"] += 1
                 seen_cfg = {}
@@ -1005,7 +1136,8 @@ def main(tier, seed):
         "reach_probes": {k: stats[k] for k in (
             "runs_checked", "faulted_runs_fired", "failing_runs", "api_ops", "perturb_ops",
             "revisit_after_other", "revisit_after_failed_or_aborted", "reuse_namespace_runs",
-            "in_place_runs", "ambient_varied_runs")},
+            "in_place_runs", "ambient_varied_runs", "abort_sweep_aborts")},
+        "abort_sweep_histories": n_sweeps,
         "ambient_axes_varied": stats["ambient_axes"],
         "cfg_families": len(families),
         "coverage_guided_pool": cover_stats,
